@@ -203,7 +203,7 @@ Definition ex_calls : list call :=
    mkCall F_section [(KBase, 1); (KZone, 2)] (s "Tets") [10; 1; 1; 0] [] [(dI8, [4], enc_ints 8 [1; 2; 3; 4])]].
 Example C01_nonvacuous :
   match run root0 ex_calls with
-  | Some (root, idxs) => wf ctx0 root = true /\ idxs = [1; 1; 2; 1; 1; 1; 1; 0; 1] /\ read_file (enc root) = Some (view root)
+  | Some (root, idxs) => wf ctx0 root = true /\ idxs = [1; 1; 2; 1; 1; 1; 1; 1; 1] /\ read_file (enc root) = Some (view root)
   | None => False
   end.
 Proof. vm_compute. repeat split; reflexivity. Qed.
